@@ -52,7 +52,7 @@ include hl hhdr hdist
 
 omit hl hdist in
 /-- what one calm call adds to the cluster -/
-theorem calm_after_effects {τ : Id → Nat} {eff : List Effect} (he : ∀ e ∈ eff, CalmEff E τ ids e) :
+theorem calm_after_effects {τ : Id → Nat} {eff : List Effect} (he : ∀ e ∈ eff, CalmEff E τ ids (· ≠ .turnUndead) e) :
     (∀ d b, (d, b) ∈ sentDatagrams eff → ∃ h ∈ sentHeaders E eff, h.dst = d ∧ HWire h ∧ h.src ∈ ids ∧
         h.msg ≠ .turnUndead ∧ DatagramShape E (CalmM τ ids) h b) ∧
     (∀ i j t, (j, t) ∈ schedTimers i eff → ∀ m inc tok, t ≠ .s2d m inc tok) := by
@@ -93,7 +93,7 @@ theorem CalmNet.after (n : Net) (i : Nat) (s s' : State) (op : Op) (orc : Oracle
     CalmNet E ids (n.after E i s' eff) := by
   obtain ⟨h1, h2, h3⟩ := hinv
   have hsmem : s ∈ n.nodes := List.mem_of_getElem? hs
-  have hst := CalmSent.step E (toldBy n.sent) ids hdist s op orc (h1 s hsmem) hop
+  have hst := CalmSent.step E (toldBy n.sent) ids (· ≠ .turnUndead) (fun _ h => h) hdist s op orc (h1 s hsmem) hop
   rw [hstep] at hst
   obtain ⟨hcalm, heff⟩ := hst
   obtain ⟨a1, a2⟩ := calm_after_effects E ids hhdr heff
